@@ -247,6 +247,8 @@ def run_case(case):
         for tag in table:
             probes += [(tag.lower(), None), (tag.upper(), None), (' ' + tag, None), (tag + ' ', None), (tag[:-1], None), (tag[1:], None), (tag + 'X', None),
                        ('Minus' + tag, -table[tag]), ('-' + tag, -table[tag]), ('minus' + tag, None)]
+        # two known tags glued together (only the sixteen stated products exist: 'IdentityGamma5', 'Gamma5Gamma5', 'SigmaXYGamma5' ... do not)
+        probes += [(t1 + t2, None) for t1 in table for t2 in table]
         for bad, allowed in probes:
             if isinstance(bad, str) and bad in table:
                 continue
@@ -280,6 +282,23 @@ def run_case(case):
                 acc.fail('tags-kept:overwritten', dict(case, shift=shift), 'after requesting all tags in the order starting at %s, the matrices obtained earlier for %s no longer equal the stated products' % (order[0], bad))
             else:
                 acc.ok(('tags-kept', shift), True, 'tags-kept')
+        # aliasing: the caller modifies a matrix it was given (in place); what is handed out afterwards - the same tag, the other
+        # tags, the module-level tables behind them - still equals the stated products
+        for tag in tags:
+            try:
+                g = pe.dirac.Grid_gamma(tag)
+                g *= 2
+                g[0, 0] = 7.0
+                wrong = [t2 for t2 in tags if not np.array_equal(np.asarray(pe.dirac.Grid_gamma(t2)), table[t2])]
+                if not np.array_equal(np.asarray(pe.dirac.gamma5), table['Gamma5']) or not np.array_equal(np.asarray(pe.dirac.identity), table['Identity']):
+                    wrong.append('module tables')
+            except Exception as e:
+                acc.fail('tags-kept:raised', dict(case, modified=tag), repr(e))
+                continue
+            if wrong:
+                acc.fail('tags-kept:aliased', dict(case, modified=tag), 'after an in-place change of the matrix returned for %s, %s no longer equal the stated products' % (tag, wrong))
+                break
+            acc.ok(('tags-alias', tag), True, 'tags-kept')
         acc.sample({'kind': 'tags-kept', 'orders': len(tags)})
     elif k == 'eps-sequence':
         # call history between the two tensors: a complete sweep of one rank, then of the other (index sets valid for one rank
@@ -343,6 +362,35 @@ def run_case(case):
                 acc.fail('kn:derivative:n=%d' % n, sub, 'propagated derivative %r expected %r (x=%g)' % (got_d, exp_d, x))
             else:
                 acc.ok(('kn', n, ix), True, 'kn-derivative')
+            # K_n inside a larger expression of the same call (the chain rule through K_n: an incoming factor multiplies its derivative),
+            # and of two observables at once
+            if ix % 4 == 1:
+                kv, dk = exp_val, exp_d
+                comps = {'x*K': (lambda z: z[0] * pe.special.kn(n, z[0]), kv + o.value * dk), 'K**2': (lambda z: pe.special.kn(n, z[0]) ** 2, 2 * kv * dk),
+                         'K/x': (lambda z: pe.special.kn(n, z[0]) / z[0], dk / o.value - kv / o.value ** 2), '3*K-1': (lambda z: 3 * pe.special.kn(n, z[0]) - 1, 3 * dk),
+                         'K(2x)': (lambda z: pe.special.kn(n, 2 * z[0]), -(ss.kn(abs(n - 1), 2 * o.value) + ss.kn(n + 1, 2 * o.value)))}
+                for cn, (f, ed) in comps.items():
+                    try:
+                        rc = pe.derived_observable(lambda z, **kw: f(z), [o])
+                        gd, sp2 = _prop_deriv(rc, o)
+                        bad = None if abs(gd - ed) <= 1e-9 * max(abs(ed), abs(kv)) and sp2 <= 1e-8 * max(abs(ed), abs(kv)) else 'propagated derivative %r expected %r' % (gd, float(ed))
+                    except Exception as e:
+                        bad = 'raised %r' % (e,)
+                    if bad:
+                        acc.fail('kn:composite:%s' % cn, dict(sub, expression=cn), '%s with K_%d at x=%g: %s' % (cn, n, x, bad))
+                    else:
+                        acc.ok(('kn-comp', n, ix, cn), True, 'kn-derivative')
+                o2 = _obs_at(pe, x * 1.3 + 0.01, (n, ix, 'second'))
+                try:
+                    r2 = pe.derived_observable(lambda z, **kw: pe.special.kn(n, z[0]) + 2 * pe.special.kn(n, z[1]), [o, o2])
+                    e2 = pe.derived_observable(lambda z, **kw: pe.special.kn(n, z[0]), [o]) + 2 * pe.derived_observable(lambda z, **kw: pe.special.kn(n, z[0]), [o2])
+                    bad = None if (r2 - e2).is_zero(1e-10) else 'K_n(a) + 2 K_n(b) in one call differs from the sum of two calls'
+                except Exception as e:
+                    bad = 'raised %r' % (e,)
+                if bad:
+                    acc.fail('kn:composite:two-arguments', dict(sub, expression='K(a)+2K(b)'), 'K_%d at x=%g: %s' % (n, x, bad))
+                else:
+                    acc.ok(('kn-comp2', n, ix), True, 'kn-derivative')
         for bad in (0.5, 1.5):
             try:
                 pe.special.kn(bad, 1.0)
